@@ -372,6 +372,88 @@ class Body:
             return i1 < i2
         return self.dominates(s1.bb, s2.bb)
 
+    # post-dominators on the normal CFG with a virtual exit (-1)
+    @property
+    def ipdom(self):
+        if "ipdom" in self._reach_cache:
+            return self._reach_cache["ipdom"]
+        live = set(self.live_blocks)
+        # `unreachable` arms of exhaustive matches and diverging (panicking) calls are not
+        # normal exits: prune them so that they do not destroy post-dominance
+        changed = True
+        while changed:
+            changed = False
+            for b in list(live):
+                t = self.term(b)
+                if t["k"] == "return":
+                    continue
+                if not [x for x in self.succ[b] if x in live]:
+                    live.discard(b)
+                    changed = True
+        EXIT = -1
+        rsucc = {EXIT: []}   # reversed graph: successors in reverse = predecessors in CFG
+        for b in live:
+            rsucc.setdefault(b, [])
+        exits = [b for b in live if not [s for s in self.succ[b] if s in live]]
+        rpred = {b: [] for b in live}
+        rpred[EXIT] = []
+        for b in live:
+            ss = [s for s in self.succ[b] if s in live]
+            for s in ss:
+                rsucc[s].append(b)      # reverse edge s -> b
+                rpred[b].append(s)
+            if not ss:
+                rsucc[EXIT].append(b)
+                rpred[b].append(EXIT)
+        order, seen = [], set()
+        stack = [(EXIT, iter(rsucc[EXIT]))]
+        seen.add(EXIT)
+        while stack:
+            n, it = stack[-1]
+            adv = False
+            for x in it:
+                if x not in seen:
+                    seen.add(x)
+                    stack.append((x, iter(rsucc[x])))
+                    adv = True
+                    break
+            if not adv:
+                order.append(n)
+                stack.pop()
+        rpo = list(reversed(order))
+        num = {b: i for i, b in enumerate(rpo)}
+        idom = {EXIT: EXIT}
+        changed = True
+        while changed:
+            changed = False
+            for b in rpo[1:]:
+                ps = [p for p in rpred[b] if p in idom]
+                if not ps:
+                    continue
+                new = ps[0]
+                for p in ps[1:]:
+                    a, c = p, new
+                    while a != c:
+                        while num[a] > num[c]:
+                            a = idom[a]
+                        while num[c] > num[a]:
+                            c = idom[c]
+                    new = a
+                if idom.get(b) != new:
+                    idom[b] = new
+                    changed = True
+        self._reach_cache["ipdom"] = idom
+        return idom
+
+    def control_region(self, bb):
+        """Blocks whose execution is decided by the branch at bb: reachable from bb's
+        successors without passing bb's immediate post-dominator. Returns (region, join)."""
+        j = self.ipdom.get(bb, -1)
+        removed = [j] if j != -1 else []
+        region = self.reachable_after(bb, removed_blocks=removed)
+        region.discard(bb) if False else None
+        return region, j
+
     def edge_guards(self, edge, bb):
         """True iff every entry->bb path uses CFG edge `edge`=(from,to)."""
         if bb not in self.live_blocks:
@@ -462,6 +544,29 @@ class Body:
                 continue
             return o
         return o
+
+    def canon_place(self, p, depth=8):
+        """Inline unnamed single-definition temps at the base of a place:
+        (*_t).f with _t = copy Q  becomes  (*Q).f ."""
+        while depth > 0:
+            depth -= 1
+            l = p["l"]
+            if (1 <= l <= self.arg_count) or self.local_name(l) is not None:
+                return p
+            sd = self.single_def(l)
+            if not sd or sd[1] != "assign":
+                return p
+            rv = sd[2]["rv"]
+            if rv["k"] == "use" and op_place(rv["op"]) is not None:
+                q = op_place(rv["op"])
+                p = {"l": q["l"], "p": list(q["p"]) + list(p["p"])}
+                continue
+            if rv["k"] == "ref" and p["p"] and p["p"][0] == "*":
+                q = rv["place"]
+                p = {"l": q["l"], "p": list(q["p"]) + list(p["p"][1:])}
+                continue
+            return p
+        return p
 
     def def_rvalue(self, l):
         """rvalue json of the single definition of temp `l`, or the call terminator."""
